@@ -367,9 +367,20 @@ class SoftwareSwitchBase (object):
 
     body = handler(ofp, connection=connection)
     if body is not None:
-      reply = ofp_stats_reply(xid=ofp.xid, type=ofp.type, body=body)
-      self.log.debug("Sending stats reply %s", reply)
-      self.send(reply)
+      # The whole reply has to fit in the 16 bit length field, so a long
+      # list of entries goes out in parts (all but the last flagged "more")
+      parts = [body]
+      if isinstance(body, list):
+        parts = [[]]
+        for entry in body:
+          if parts[-1] and sum(map(len, parts[-1])) + len(entry) > 0xffFF - 12:
+            parts.append([])
+          parts[-1].append(entry)
+      for part in parts:
+        reply = ofp_stats_reply(xid=ofp.xid, type=ofp.type, body=part)
+        if part is not parts[-1]: reply.flags |= OFPSF_REPLY_MORE
+        self.log.debug("Sending stats reply %s", reply)
+        self.send(reply)
 
   def _rx_set_config (self, config, connection):
     self.miss_send_len = config.miss_send_len
